@@ -53,6 +53,11 @@ def main(argv):
     except engine.InternalError as exc:
         print('INTERNAL-ERROR %s: %s' % (pid, exc), file=sys.stderr)
         return 2
+    except Exception:  # pylint: disable=broad-except
+        import traceback
+        print('INTERNAL-ERROR %s: unexpected harness failure\n%s'
+              % (pid, traceback.format_exc()), file=sys.stderr)
+        return 2
     if not args.no_evidence:
         engine.write_evidence(evidence)
     engine.summarize(evidence)
